@@ -28,3 +28,28 @@ def extract_loop_body(func, iter_text, occurrence, name, params, returns):
     target = ast.unparse(lp.target)
     src = "def %s(%s):\n%s\n    return %s\n" % (name, ", ".join(params), body, ", ".join(returns))
     return src, target, lp.lineno
+
+
+class _SelfToNames(ast.NodeTransformer):
+    """`self.attr` and `self.a.b` -> `attr` / `a_b` (mechanical renaming for methods: attributes of self become parameters of the block)"""
+
+    def visit_Attribute(self, node):
+        self.generic_visit(node)
+        if isinstance(node.value, ast.Name) and node.value.id == "self":
+            return ast.copy_location(ast.Name(id=node.attr.lstrip("_") if node.attr.startswith("_") else node.attr, ctx=node.ctx), node)
+        return node
+
+
+def extract_method_loop_body(func, iter_text, occurrence, name, params, returns):
+    """like extract_loop_body for a method: `self.x` becomes the parameter `x` (leading underscores dropped)"""
+    f = getattr(func, "py_func", func)
+    fd = ast.parse(textwrap.dedent(inspect.getsource(f))).body[0]
+    loops = [st for st in fd.body if isinstance(st, ast.For)]
+    hits = [lp for lp in loops if ast.unparse(lp.iter) == iter_text]
+    if len(hits) <= occurrence:
+        raise LookupError("loop `for ... in %s` #%d not found in %s" % (iter_text, occurrence, fd.name))
+    lp = _SelfToNames().visit(hits[occurrence])
+    ast.fix_missing_locations(lp)
+    body = "\n".join(textwrap.indent(ast.unparse(st), "    ") for st in lp.body)
+    src = "def %s(%s):\n%s\n    return %s\n" % (name, ", ".join(params), body, ", ".join(returns))
+    return src, ast.unparse(lp.target), lp.lineno
